@@ -115,11 +115,10 @@ func runH2C(r *hk.Run, e *env) {
 	check("p := C(); q := p.Clone(); q.EnableH2C(); q.Clone()", q.Clone(), st{true, true})
 }
 
-// re-exec: one Request object executed twice (a common way to use req: build a request once, send it to
-// several URLs), possibly with client-level changes in between. Per the property every execution sends
-// the request-level settings plus the client-level settings of THAT moment. A deviation that is exactly
-// what "the client-level headers / cookies / form data of the first execution were written into the
-// Request object" predicts gets a signature of its own (a known finding); anything else is "other".
+// re-exec: one Request object executed up to three times (a common way to use req: build a request once,
+// send it several times), with client-level and request-level setters in between. Per the property every
+// execution sends the request-level settings of that moment plus the client-level settings of that moment:
+// nothing an execution merged from the client may stick to the Request object.
 func runReExec(r *hk.Run, e *env, rng *hk.Rand, n int) {
 	for i := 0; i < n; i++ {
 		e.reset()
@@ -130,7 +129,7 @@ func runReExec(r *hk.Run, e *env, rng *hk.Rand, n int) {
 		rc.tls = &refTLS{}
 		var prog []string
 		clientSetter := func() setter {
-			switch rng.Intn(5) {
+			switch rng.Intn(6) {
 			case 0:
 				return setter{K: "append", F: 0, Vs: []int{rng.Range(1, 9)}}
 			case 1:
@@ -139,11 +138,23 @@ func runReExec(r *hk.Run, e *env, rng *hk.Rand, n int) {
 				return setter{K: "mapset", F: 2, Key: rng.Range(1, 4), Val: rng.Range(1, 9)}
 			case 3:
 				return setter{K: "mapadd", F: 2, Key: rng.Range(1, 4), Val: rng.Range(1, 9)}
+			case 4:
+				return setter{K: "clearcookies"}
 			default:
 				return setter{K: "mapset", F: 1, Key: rng.Range(1, 4), Val: rng.Range(1, 9)}
 			}
 		}
-		apply := func(s setter) {
+		requestSetter := func() setter {
+			switch rng.Intn(3) {
+			case 0:
+				return setter{K: "append", F: 0, Vs: []int{rng.Range(1, 9)}}
+			case 1:
+				return setter{K: "mapset", F: 0, Key: rng.Range(1, 4), Val: rng.Range(1, 9)}
+			default:
+				return setter{K: "mapset", F: 2, Key: rng.Range(1, 4), Val: rng.Range(1, 9)}
+			}
+		}
+		applyC := func(s setter) {
 			if err := e.clientSet(c, s, 0); err != nil {
 				r.Fail(hk.Failure{Sig: "error:re-exec:set", What: err.Error()})
 			}
@@ -151,38 +162,20 @@ func runReExec(r *hk.Run, e *env, rng *hk.Rand, n int) {
 			prog = append(prog, "c: "+s.coq())
 		}
 		for j, m := 0, rng.Range(0, 3); j < m; j++ {
-			apply(clientSetter())
+			applyC(clientSetter())
 		}
 		q := c.R()
 		rq := newRefObj()
-		for j, m := 0, rng.Range(0, 3); j < m; j++ {
-			var s setter
-			switch rng.Intn(3) {
-			case 0:
-				s = setter{K: "append", F: 0, Vs: []int{rng.Range(1, 9)}}
-			case 1:
-				s = setter{K: "mapset", F: 0, Key: rng.Range(1, 4), Val: rng.Range(1, 9)}
-			default:
-				s = setter{K: "mapset", F: 2, Key: rng.Range(1, 4), Val: rng.Range(1, 9)}
-			}
+		applyQ := func(s setter) {
 			e.reqSet(q, s, 0)
 			rq.apply(s)
 			prog = append(prog, "q: "+s.coq())
 		}
-		// what the code writes into the Request object at its first execution
-		baked := rq.deepCopy()
-		baked.jar, baked.fact = nil, false
-		for k, v := range rc.mp[0] {
-			if len(baked.mp[0][k]) == 0 {
-				baked.mp[0][k] = cpInts(v)
-			}
+		for j, m := 0, rng.Range(0, 3); j < m; j++ {
+			applyQ(requestSetter())
 		}
-		baked.sl[0] = append(cpInts(rq.sl[0]), rc.sl[0]...)
-		for k, v := range rc.mp[2] {
-			baked.mp[2][k] = append(cpInts(baked.mp[2][k]), v...)
-		}
-		ok := true
-		for x := 1; x <= 2 && ok; x++ {
+		execs := rng.Range(2, 3)
+		for x := 1; x <= execs; x++ {
 			d, err := e.emit(c, q)
 			prog = append(prog, fmt.Sprintf("q.Post() #%d", x))
 			if err != nil {
@@ -191,30 +184,34 @@ func runReExec(r *hk.Run, e *env, rng *hk.Rand, n int) {
 			}
 			want := refDescribe(rc, rq)
 			if k := firstDiff(want, d); k >= 0 {
-				ok = false
-				sig := fmt.Sprintf("re-exec:%s:other", compNames[k])
+				sig := "re-exec:" + compNames[k]
 				if x == 1 {
 					sig = "re-exec:first-execution:" + compNames[k]
-				} else if firstDiff(refDescribe(rc, baked), d) < 0 {
-					sig = fmt.Sprintf("re-exec:%s:client-settings-of-first-execution-baked-into-request", compNames[k])
 				}
 				r.Fail(hk.Failure{Sig: sig, What: fmt.Sprintf("execution #%d of one Request object: emitted %s differ from request-level + current client-level settings", x, compNames[k]),
 					Input: map[string]interface{}{"program": append([]string(nil), prog...)}, Got: d[k], Want: want[k]})
+				break
 			}
-			if x == 1 && rng.Chance(60) {
-				s := clientSetter()
-				if len(rc.mp[0]) > 0 && rng.Chance(50) { // change a common header the client already has
-					for k := 1; k <= 4; k++ {
-						if v, ok := rc.mp[0][k]; ok {
-							s = setter{K: "mapset", F: 0, Key: k, Val: v[0]%9 + 1}
-							break
+			if x < execs {
+				if rng.Chance(60) {
+					s := clientSetter()
+					if len(rc.mp[0]) > 0 && rng.Chance(50) { // change a common header the client already has
+						for k := 1; k <= 4; k++ {
+							if v, ok := rc.mp[0][k]; ok {
+								s = setter{K: "mapset", F: 0, Key: k, Val: v[0]%9 + 1}
+								break
+							}
 						}
 					}
+					applyC(s)
 				}
-				apply(s)
+				if rng.Chance(40) {
+					applyQ(requestSetter())
+				}
 			}
 		}
 		r.Count("reexec.programs")
+		r.Count(fmt.Sprintf("reexec.executions=%d", execs))
 	}
 	e.reset()
 }
